@@ -1597,6 +1597,61 @@ pub fn gen_fusion(rng: &mut Rng) -> Case {
     c
 }
 
+/// G-repeat: ONE instruction repeated N times in a row (N around 2^7, 2^8, 2^9, and sometimes beyond
+/// 2^16): run-length peepholes, per-instruction tables and counters kept in narrow types. The
+/// repeated instruction is an ALU operation, a store/load pair on a stack slot, an atomic add to a
+/// stack slot or to the packet, or a byte swap; everything is initialised, so the result is exact.
+pub fn gen_repeat(rng: &mut Rng) -> Case {
+    let n = if rng.chance(1, 60) { *rng.pick(&[65_535usize, 65_536, 65_537, 70_001]) } else { *rng.pick(&[126usize, 127, 128, 129, 130, 200, 254, 255, 256, 257, 258, 300, 511, 512, 513, 1000, 1023, 1024, 1025]) };
+    let what = rng.below(9);
+    let kind = if what == 6 { Kind::Raw } else { *rng.pick(&[Kind::NoData, Kind::Raw, Kind::Mbuff, Kind::Fixed]) };
+    let mut v: Vec<Insn> = Vec::with_capacity(n + 40);
+    for r in 0..=9u8 {
+        if r == 1 {
+            continue; // r1 keeps the context pointer
+        }
+        let x = rng.next();
+        v.push(Insn::new(LDDW, r, 0, 0, x as u32 as i32));
+        v.push(Insn::new(0, 0, 0, 0, (x >> 32) as u32 as i32));
+    }
+    v.push(Insn::new(STDW, 10, 0, -8, 5));
+    v.push(Insn::new(STDW, 10, 0, -16, -7));
+    let d = *rng.pick(&[0u8, 3, 6, 7, 9]);
+    let sr = *rng.pick(&[2u8, 4, 8, 5]);
+    let one: Vec<Insn> = match what {
+        0 => vec![Insn::new(ADD64_IMM, d, 0, 0, *rng.pick(&[1, -1, 0x7fff_ffff, 3]))],
+        1 => vec![Insn::new(ADD64_REG, d, sr, 0, 0)],
+        2 => vec![Insn::new(0x04, d, 0, 0, *rng.pick(&[1, -3, 0x1000]))], // add32 imm
+        3 => vec![Insn::new(MUL64_IMM, d, 0, 0, 3)],
+        4 => vec![Insn::new(XADD_DW, 10, sr, -8, 0)],
+        5 => vec![Insn::new(XADD_W, 10, sr, -16, 0)],
+        6 => vec![Insn::new(if rng.chance(1, 2) { XADD_DW } else { XADD_W }, 1, sr, 8, 0)], // packet word at +8
+        7 => vec![Insn::new(STXDW, 10, d, -8, 0), Insn::new(ADD64_IMM, d, 0, 0, 1)],
+        _ => vec![Insn::new(if rng.chance(1, 2) { BE } else { LE }, d, 0, 0, *rng.pick(&[16, 32, 64])), Insn::new(0x67, d, 0, 0, 1)], // swap; lsh 1
+    };
+    let per = one.len();
+    for _ in 0..n.div_ceil(per) {
+        v.extend(one.iter().cloned());
+    }
+    // fold
+    v.push(Insn::new(MOV64_REG, 0, d, 0, 0));
+    v.push(Insn::new(LDXDW, 5, 10, -8, 0));
+    v.push(Insn::new(MUL64_IMM, 0, 0, 0, 0x01000193));
+    v.push(Insn::new(XOR64_REG, 0, 5, 0, 0));
+    v.push(Insn::new(LDXDW, 5, 10, -16, 0));
+    v.push(Insn::new(MUL64_IMM, 0, 0, 0, 0x01000193));
+    v.push(Insn::new(XOR64_REG, 0, 5, 0, 0));
+    v.push(Insn::new(EXIT, 0, 0, 0, 0));
+    let mut c = Case::new(kind, encode_prog(&v), "repeat");
+    if kind != Kind::NoData {
+        c.pkt = rng.bytes(32);
+    }
+    if kind == Kind::Mbuff {
+        c.mbuff = rng.bytes(32);
+    }
+    c
+}
+
 pub fn gen_extreme_jumps() -> Case {
     let a = 32769usize;
     let mut v: Vec<Insn> = Vec::with_capacity(a + 4);
